@@ -171,7 +171,7 @@ func compileLines(lines []string, dir string, v2 bool) error {
 		return err
 	}
 	defer f.Close()
-	_, err = rdb.Compile(f, 4242, dir, rdb.CompilationOptions{NumCPU: 1, UseV2KeySyntax: v2, UseBuilder: true})
+	_, err = rdb.Compile(f, 4242, dir, rdb.CompilationOptions{NumCPU: 1, UseV2KeySyntax: v2, UseBuilder: len(lines) > 20000, BatchSize: 100000, BatchNumParallel: 1}) // the bulk loader reserves room for 20 million keys (about 1 GB) each time: batches for small files
 	return err
 }
 
